@@ -109,7 +109,7 @@ def run_mutant(repo, prop, m):
 
 def campaign(repo, prop, quals, jobs=16, limit=None):
     from .loader import Program
-    P = Program(repo)
+    P = Program(repo, canonical=False)
     ms = generate(P, quals, limit)
     with cf.ThreadPoolExecutor(max_workers=jobs) as ex:
         res = list(ex.map(lambda m: run_mutant(repo, prop, m), ms))
